@@ -164,9 +164,11 @@ class SSHAgentKeyPair(SSHKeyPair):
         super().set_sig_algorithm(sig_algorithm)
 
         if sig_algorithm in (b'rsa-sha2-256', b'x509v3-rsa2048-sha256'):
-            self._flags |= SSH_AGENT_RSA_SHA2_256
+            self._flags = SSH_AGENT_RSA_SHA2_256
         elif sig_algorithm == b'rsa-sha2-512':
-            self._flags |= SSH_AGENT_RSA_SHA2_512
+            self._flags = SSH_AGENT_RSA_SHA2_512
+        else:
+            self._flags = 0
 
     async def sign_async(self, data: bytes) -> bytes:
         """Asynchronously sign a block of data with this private key"""
